@@ -2074,6 +2074,7 @@ impl Parser {
         let ty_node = children.next().unwrap();
         let ty_span = ty_node.as_span();
 
+        let ident_span = ident_node.as_span();
         let mut ident = Self::ident(ident_node)?;
 
         let real_ty = Self::r#type(ty_node)?;
@@ -2089,6 +2090,17 @@ impl Parser {
         }
 
         if real_ty.is_class() {
+            // an alias of a class is a name for that class: it is bound like a class name (a constant), and it cannot
+            // take the place of a name that already exists in this function
+            if let Some(previous) = input.user_data().has_name_been_mapped_in_function(ident.name()) {
+                return Err(new_err(
+                    ident_span,
+                    &input.user_data().get_source_file_name(),
+                    format!("This name is already in scope (Hint: `{}: {} = ...` was declared somewhere above)", ident.name(), previous.ty().unwrap()),
+                ));
+            }
+
+            ident.mark_const();
             ident.link_force_no_inherit(input.user_data(), real_ty.clone())?;
         }
 
